@@ -67,6 +67,37 @@ def summarize_with_shortcuts(S, fn, call_kwargs, extra, expected, label, depth=0
         return sm_t
 
 
+_fn_cache = {}
+
+
+def effect_signature(trace):
+    """the effectful ops of a trace (launches, stores, transforms) in order, as text"""
+    return [repr(o) for o in trace if o.kind not in ("CallBegin", "CallEnd")]
+
+
+def second_call_summary(S, e):
+    """The callable entry_summary() summarised, called AGAIN on the same object (closure state of the generator kept).
+    Returns None when the second call performs exactly the effects of the first (then it computes the same function of the
+    array contents), else the summary of a further call from arbitrary array contents."""
+    k = (id(S), e.label())
+    fn = _fn_cache.get(k)
+    if fn is None or _cache[k][0] is None:
+        return None
+    sm, _, call_kwargs, extra = _cache[k]
+    if k not in _second:
+        tr2, pr2, raised2 = S.trace_call(fn, **call_kwargs)
+        if raised2 is None and not pr2 and effect_signature(tr2) == effect_signature(sm.trace):
+            _second[k] = None
+        else:
+            _second[k] = summarize_with_shortcuts(S, fn, call_kwargs, extra, tuple(e.expected()), e.label())
+    return _second[k]
+
+
+_second = {}
+_CC.append(_second)
+_CC.append(_fn_cache)
+
+
 def entry_summary(S, e):
     """summary of one catalogue entry (cached per session)"""
     k = (id(S), e.label())
@@ -84,6 +115,7 @@ def entry_summary(S, e):
     else:
         sm = summarize_with_shortcuts(S, fn, call_kwargs, extra, tuple(e.expected()), e.label())
         res = (sm, None, call_kwargs, extra)
+        _fn_cache[k] = fn
     _cache[k] = res
     return res
 
